@@ -3200,15 +3200,19 @@ class Circuit(Unitary, StateVectorMap, Collection[Operation]):
         circuit.append_circuit(self, list(range(self.num_qudits)))
         return circuit
 
-    def __iadd__(self, rhs: Circuit) -> None:
-        """Return a concatenated circuit copy."""
+    def __iadd__(self, rhs: Circuit) -> Circuit:
+        """Concatenate `rhs` onto this circuit in place."""
         self.append_circuit(rhs, list(range(self.num_qudits)))
+        return self
 
-    def __imul__(self, rhs: int) -> None:
-        """Return a repeated circuit copy."""
+    def __imul__(self, rhs: int) -> Circuit:
+        """Repeat this circuit in place."""
         circuit = self.copy()
+        if rhs <= 0:
+            self.clear()
         for x in range(rhs - 1):
             self.append_circuit(circuit, list(range(self.num_qudits)))
+        return self
 
     # endregion
 
